@@ -6,10 +6,12 @@ pure integer code; their round trips are proved here for ALL 64-bit values (no s
 `JsonV.Model.Time`, which mirrors the Go code (including the uint64/int64 wrap-around it relies on) and
 is tied to the code by the correspondence check of harness/c04.go.
 
-The round trip of whole Go values (structs, maps, options …) is NOT proved here: the L3 value model is
-another slice; that statement is validated by the harness only (see meta/C04.json).
+The round trip of whole Go values (structs, maps, options …) is NOT proved in this file: a tree-level statement over the
+L3 model is slice c14's Props/C04L3.lean; here it is validated by the harness only (see meta/C04.json).
 -/
 import JsonV.Lemmas.TimeUnixRt
+import JsonV.Lemmas.TimeISORt
+import JsonV.Props.C10
 
 namespace JsonV.Props.C04
 open JsonV JsonV.Model.Time
@@ -78,9 +80,56 @@ theorem durB10_rt (d : Int64) (p : Nat) (hp : p ∈ bases) :
 
 example : (1000 : Nat) ∈ bases := by decide
 
-/-- Full statement not yet proved: ISO 8601 durations round-trip for every int64 (whatever the float-branch parameter `ff` is: the writer never emits a fraction of an hour or minute, so the branch is not reached). -/
-def durISO_full : Prop :=
-  ∀ (ff : FloatFrac) (d : Int64), parseDurationISO8601 ff (appendDurationISO8601 [] d.toInt) = (d.toInt, none, false)
+/-- `durISO_rt`: for EVERY int64 duration `d`, `parseDurationISO8601 (appendDurationISO8601 d) = d` with no error —
+whatever the float-branch parameter `ff` of the model is: the writer only ever puts a fraction on the seconds
+component, so the parser's float branch (fraction of an hour/minute/date unit) is never entered (third component
+`false`).  Covers d = 0 ("PT0S"), MinInt64 (magnitude 2^63 only exists as a uint64), sub-second-only durations and
+every combination of present/absent H, M, S components. -/
+theorem durISO_rt (ff : FloatFrac) (d : Int64) :
+    parseDurationISO8601 ff (appendDurationISO8601 [] d.toInt) = (d.toInt, none, false) :=
+  durISO_roundtrip ff d.toInt (int64_range d).1 (int64_range d).2
+
+/-! ### quoted numbers (StringifyNumbers, the `string` tag, map keys)
+
+The marshaler writes `"` ++ decimal ++ `"` (digits and '-' never need escaping, so the JSON string is verbatim);
+the unmarshaler's quoted path strips the two quotes (`jsonwire.UnquoteMayCopy(val, isVerbatim)`) and runs the
+very same parse as for a bare number (slice C10: `Model/Number.lean`, `Props.C10.quoted_same`). -/
+
+/-- the quoted form written by `AppendRaw('"', …)` for a number text. -/
+def quoteNum (b : Bytes) : Bytes := 34 :: (b ++ [34])
+/-- `jsonwire.UnquoteMayCopy(val, true)`: `val[1 : len(val)-1]`. -/
+def unquoteVerbatim (b : Bytes) : Bytes := (b.drop 1).take (b.length - 2)
+
+theorem unquote_quote (b : Bytes) : unquoteVerbatim (quoteNum b) = b := by
+  simp [unquoteVerbatim, quoteNum]
+
+/-- `quoted_num_rt` (signed): every in-range integer of every Go width, written in the quoted form, is read back
+as itself by the quoted path; and the quoted path refuses a bare number (kind mismatch), as the bare path refuses a string. -/
+theorem quoted_int_rt (w : Nat) (hw : JsonV.Lemmas.NumInt.GoWidth w) (i : Int)
+    (h1 : -(2 ^ (w - 1) : Int) ≤ i) (h2 : i < 2 ^ (w - 1)) :
+    JsonV.Model.Number.unmarshalIntValue w true .str (unquoteVerbatim (quoteNum (JsonV.Model.Number.formatInt i))) = .set i ∧
+    JsonV.Model.Number.unmarshalIntValue w true .num (JsonV.Model.Number.formatInt i) = .err .mismatch ∧
+    JsonV.Model.Number.unmarshalIntValue w false .str (JsonV.Model.Number.formatInt i) = .err .mismatch := by
+  have hq := JsonV.Props.C10.quoted_same w (JsonV.Model.Number.formatInt i)
+  refine ⟨?_, hq.2.2.1, hq.2.2.2.1⟩
+  rw [unquote_quote, hq.1]
+  simp [JsonV.Model.Number.unmarshalIntValue, JsonV.Props.C10.int_rt w hw i h1 h2]
+
+example : JsonV.Lemmas.NumInt.GoWidth 8 ∧ -(2 ^ (8 - 1) : Int) ≤ -128 ∧ (-128 : Int) < 2 ^ (8 - 1) := ⟨Or.inl rfl, by decide, by decide⟩
+
+/-- `quoted_num_rt` (unsigned). -/
+theorem quoted_uint_rt (w : Nat) (hw : JsonV.Lemmas.NumInt.GoWidth w) (n : Nat) (h : n < 2 ^ w) :
+    JsonV.Model.Number.unmarshalUintValue w true .str (unquoteVerbatim (quoteNum (JsonV.Model.Number.formatUint n))) = .set n ∧
+    JsonV.Model.Number.unmarshalUintValue w true .num (JsonV.Model.Number.formatUint n) = .err .mismatch := by
+  have hq := JsonV.Props.C10.quoted_same w (JsonV.Model.Number.formatUint n)
+  refine ⟨?_, hq.2.2.2.2.1⟩
+  rw [unquote_quote, hq.2.1]
+  have hu : JsonV.Model.Number.unmarshalUint w (JsonV.Model.Number.formatUint n) = .ok n :=
+    (JsonV.Props.C10.uint_bounds w hw _ n).2
+      ⟨JsonV.Lemmas.NumInt.formatUint_canonical n, JsonV.Lemmas.NumInt.bytesVal_formatUint n, h⟩
+  simp [JsonV.Model.Number.unmarshalUintValue, hu]
+
+example : JsonV.Lemmas.NumInt.GoWidth 64 ∧ (18446744073709551615 : Nat) < 2 ^ 64 := ⟨Or.inr (Or.inr (Or.inr rfl)), by decide⟩
 
 /-- `timeUnix_rt`: for EVERY int64 second count, every nanosecond count in `[0, 10^9)` and each base
 (formats unix, unixmilli, unixmicro, unixnano) `parseTimeUnix (appendTimeUnix (sec, nsec) p) p = (sec, nsec)`:
